@@ -720,6 +720,14 @@ class IntegralOracle:
             ref = np.take(np.asarray(full.values), idx, axis=0)
             if not np.allclose(ref, 1.0, rtol=0, atol=1e-12):
                 out.append("C12:reference-not-one:" + sig)
+            # the definition: every integral divided by the reference integral (complex division), and the default
+            # (return_complex_values=False) is the real part of exactly that
+            pv = np.asarray(pre.values)
+            want = pv / np.take(pv, [idx], axis=0)
+            if not close(full.values, want):
+                out.append("C12:enhancement-value:" + sig)
+            if not close(np.asarray(res.values), np.real(want)):
+                out.append("C12:enhancement-value-default-real:" + sig)
             for c in (3.0, -0.5, 2.0 - 1.5j):
                 sc = pre.copy(); sc.values = pre.values * c
                 r2 = dnp.calculate_enhancement(sc, off_spectrum_index=idx, return_complex_values=True)
